@@ -11,6 +11,51 @@ use num_traits::{One, Zero};
 use proptest::prelude::*;
 use serde::{Deserialize, Serialize};
 
+// an element type that is Clone but not Copy and owns no heap memory: every construction
+// (incl. clones) and every drop is counted per thread, so that an implementation that duplicates
+// or forgets elements bit-wise shows up as an imbalance instead of as undefined behaviour
+thread_local! {
+    static LIVE: std::cell::Cell<i64> = const { std::cell::Cell::new(0) };
+}
+
+#[derive(Debug, PartialEq)]
+pub struct Counted(pub u32);
+
+impl Counted {
+    fn new(v: u32) -> Counted {
+        LIVE.with(|l| l.set(l.get() + 1));
+        Counted(v)
+    }
+}
+
+impl Clone for Counted {
+    fn clone(&self) -> Counted {
+        Counted::new(self.0)
+    }
+}
+
+impl Drop for Counted {
+    fn drop(&mut self) {
+        LIVE.with(|l| l.set(l.get() - 1));
+    }
+}
+
+impl std::ops::Add for Counted {
+    type Output = Counted;
+    fn add(self, o: Counted) -> Counted {
+        Counted::new(self.0.wrapping_add(o.0))
+    }
+}
+
+impl Zero for Counted {
+    fn zero() -> Counted {
+        Counted::new(0)
+    }
+    fn is_zero(&self) -> bool {
+        self.0 == 0
+    }
+}
+
 #[derive(Debug, Clone, Serialize, Deserialize)]
 pub struct IlCase {
     pub columns: usize,
@@ -105,6 +150,24 @@ fn check_il(c: &IlCase, p: &mut Probe) -> Check {
         ensure!(*v == xg[src], "permutation-gf2", "GF2 element {i} misplaced");
     }
     ensure!(il.deinterleave(&yg) == xg, "inverse-gf2", "GF2 deinterleave is not the inverse");
+    // an element type that is Clone but not Copy: same placement, and every element constructed is
+    // dropped exactly once (live-instance balance returns to its starting value)
+    if n <= 256 {
+        let before = LIVE.with(|l| l.get());
+        {
+            let xc: Vec<Counted> = x.iter().map(|&v| Counted::new(v)).collect();
+            let yc = guarded(|| il.interleave(&Array1::from_vec(xc.clone())).to_vec()).map_err(|e| Fail::new("panic", format!("interleave panicked on a non-Copy element type: {e}")))?;
+            ensure!(yc.len() == n && (0..n).all(|i| yc[i].0 == y[i]), "permutation-noncopy", "non-Copy elements are placed differently from u32 elements (columns {cc}, rows {rr}, backward {})", c.backward);
+            let live_mid = LIVE.with(|l| l.get());
+            ensure!(live_mid - before == 2 * n as i64, "element-balance", "after interleave {} element instances are alive, {} expected (input + output): elements were duplicated or lost without Clone/Drop", live_mid - before, 2 * n);
+            let bc = guarded(|| il.deinterleave(&yc)).map_err(|e| Fail::new("panic", format!("deinterleave panicked on a non-Copy element type: {e}")))?;
+            ensure!(bc.len() == n && (0..n).all(|i| bc[i].0 == x[i]), "inverse-noncopy", "deinterleave is not the inverse for a non-Copy element type (columns {cc}, rows {rr}, backward {})", c.backward);
+            let live_end = LIVE.with(|l| l.get());
+            ensure!(live_end - before == 3 * n as i64, "element-balance", "after deinterleave {} element instances are alive, {} expected (input, interleaved, deinterleaved): elements were duplicated or lost without Clone/Drop", live_end - before, 3 * n);
+        }
+        let after = LIVE.with(|l| l.get());
+        ensure!(after == before, "element-balance", "{} element instances were dropped more or less often than they were created", after - before);
+    }
     p.class_if(cc != rr, "non-square");
     p.class_if(cc == 1 || rr == 1, "degenerate");
     p.class_if(c.backward, "backward");
@@ -193,6 +256,19 @@ fn check_pu(c: &PuCase, p: &mut Probe) -> Check {
         let r = guarded(|| pu.depuncture(&yy)).map_err(|e| Fail::new("panic", format!("depuncture panicked on an indivisible length: {e}")))?;
         ensure!(r.is_err(), "indivisible-accepted", "depuncture accepted {} values with {t} kept blocks", y.len() + c.extra);
     }
+    // Clone-but-not-Copy elements: same blocks, every instance dropped exactly once
+    {
+        let before = LIVE.with(|l| l.get());
+        {
+            let xc: Vec<Counted> = x.iter().map(|&v| Counted::new(v as u32)).collect();
+            let yc = guarded(|| pu.puncture(&Array1::from_vec(xc.clone()))).map_err(|e| Fail::new("panic", format!("puncture panicked on a non-Copy element type: {e}")))?.map_err(|e| Fail::new("puncture-err", format!("{e}")))?;
+            ensure!(yc.len() == want.len() && yc.iter().zip(&want).all(|(a, b)| a.0 == *b as u32), "puncture-noncopy", "non-Copy elements are punctured differently from i64 elements (pattern {pat:?}, block {bs})");
+            let live = LIVE.with(|l| l.get());
+            ensure!(live - before == (n + want.len()) as i64, "element-balance", "after puncture {} element instances are alive, {} expected", live - before, n + want.len());
+        }
+        let after = LIVE.with(|l| l.get());
+        ensure!(after == before, "element-balance", "{} element instances were dropped more or less often than they were created by puncture", after - before);
+    }
     // every length below the pattern length: 0 is divisible (empty result), all others are not
     for l in 0..pat.len() {
         let xx: Vec<i64> = (0..l as i64).map(|v| v + 1).collect();
@@ -226,7 +302,7 @@ pub fn property() -> Property {
         subs: vec![
             Box::new(EnumSub {
                 name: "interleaver-shapes",
-                rule: "exhaustive over all (columns, rows) in 1..=12 squared (thorough 1..=40) x both reading directions, each shape once through an owned standard-layout array on a fresh object and once through a non-standard layout (reversed view, stride 2, stride -2, offset sub-range, owned array with negative stride) on an object that has already processed a block of another length; the second half of the checks runs on a clone taken after first use: output[r*C+c] = input[c*R+r] (or input[(C-1-c)*R+r] backwards) on distinct u32 labels; deinterleave o interleave = id and interleave o deinterleave = id; the same placement bit-exactly for f64 (incl. -0.0) and GF2 elements; non-trivial = C, R >= 2",
+                rule: "exhaustive over all (columns, rows) in 1..=12 squared (thorough 1..=40) x both reading directions, each shape once through an owned standard-layout array on a fresh object and once through a non-standard layout (reversed view, stride 2, stride -2, offset sub-range, owned array with negative stride) on an object that has already processed a block of another length; the second half of the checks runs on a clone taken after first use: output[r*C+c] = input[c*R+r] (or input[(C-1-c)*R+r] backwards) on distinct u32 labels; deinterleave o interleave = id and interleave o deinterleave = id; the same placement bit-exactly for f64 (incl. -0.0) and GF2 elements, and for a Clone-but-not-Copy element type whose constructions and drops are counted (balance of live instances after interleave and deinterleave); non-trivial = C, R >= 2",
                 cases: il_all,
                 check: check_il,
                 exhaustive: true,
